@@ -188,6 +188,49 @@ def _domain_obligations(ck, ctx):
             ck.obligs.append(Oblig(name, 0, 'undecided', 'z3', time.time() - t, '%s: solver unknown for %r' % (kind, cond)))
 
 
+def _compare_calls(ck, res, ev, vals, robust, fp):
+    """None if every recorded call agrees with the native result, 'skip' if the point is too close to a path boundary
+    to judge, else a mismatch record"""
+    ncalls = res.get('calls', [])
+    for i, (r, nr) in enumerate(zip(ck.calls, ncalls)):
+        if isinstance(r, Raised):
+            if r.type == 'ZeroDivisionError' and any(isinstance(x, float) and (x != x or abs(x) == float('inf')) for x in (nr.get('values') or [])):
+                return None          # exact division by zero: the native NumPy result is inf/nan (agreement; the failed clause is reported)
+            if nr.get('raised') != r.type:
+                if robust:
+                    return {'path': fp, 'call': i, 'why': 'symbolic raised %s, native %s' % (r.type, nr), 'values': vals}
+                else:
+                    return 'skip'
+            continue
+        if 'raised' in nr:
+            if robust:
+                return {'path': fp, 'call': i, 'why': 'native raised %s, symbolic returned' % nr['raised'], 'values': vals}
+            else:
+                return 'skip'
+        s, v = flatten(r)
+        nv = nr.get('values')
+        if nv is None or len(nv) != len(v):
+            if robust:
+                return {'path': fp, 'call': i, 'why': 'structure: %s vs %s' % (repr(s)[:200], nr.get('sig', '')[:200]), 'values': vals}
+            else:
+                return 'skip'
+        for x, y in zip(v, nv):
+            try:
+                xv = x.eval(ev) if isinstance(x, (SReal, SBool)) else x
+            except Exception:
+                continue
+            if isinstance(xv, bool) or isinstance(y, bool):
+                bad = bool(xv) != bool(y)
+            else:
+                bad = abs(float(xv) - float(y)) > 1e-6 * max(1.0, abs(float(y)))
+            if bad:
+                if robust:
+                    return {'path': fp, 'call': i, 'why': 'value %r vs native %r' % (xv, y), 'values': vals}
+                else:
+                    return 'skip'
+    return None
+
+
 def _crosscheck(ck, ctx, job, out, fp):
     """CPython cross-check: at a witness of the path, the symbolic results of the recorded calls,
     evaluated numerically, must agree with the real code's results"""
@@ -223,44 +266,32 @@ def _crosscheck(ck, ctx, job, out, fp):
                                       'values': vals, 'pc': [repr(b)[:160] for b, _z, _l in ctx.pc][:12], 'labels': [l for _, _, l in ctx.pc][:12]})
         out['cross']['validated'] += 1
         return
-    ncalls = res.get('calls', [])
-    robust = kind == 'sampled' and margin > 1e-7
-    for i, (r, nr) in enumerate(zip(ck.calls, ncalls)):
-        if isinstance(r, Raised):
-            if nr.get('raised') != r.type:
-                if robust:
-                    out['cross']['mismatch'].append({'path': fp, 'call': i, 'why': 'symbolic raised %s, native %s' % (r.type, nr), 'values': vals})
-                else:
-                    out['cross']['skipped'] += 1
-                return
+    mm = _compare_calls(ck, res, ev, vals, kind == 'sampled' and margin > 1e-7, fp)
+    tries = 0
+    while mm not in (None, 'skip') and tries < 3:
+        # a disagreement at one point can be a floating-point artefact outside assumption A1 (atan2(-0.0, -1) = -pi,
+        # a rounded comparison): the path counts as validated only if another witness of the same path agrees in full;
+        # a modelling error of the engine shows on every witness
+        tries += 1
+        ck._witness, ck._witness_tried = None, False
+        w2 = ck.witness()
+        if w2 is None or w2[1] != 'sampled' or w2[2] <= 1e-7:
+            break
+        try:
+            ev2 = sc.evaluate_atoms(w2[0])
+        except Exception:
             continue
-        if 'raised' in nr:
-            if robust:
-                out['cross']['mismatch'].append({'path': fp, 'call': i, 'why': 'native raised %s, symbolic returned' % nr['raised'], 'values': vals})
-            else:
-                out['cross']['skipped'] += 1
-            return
-        s, v = flatten(r)
-        nv = nr.get('values')
-        if nv is None or len(nv) != len(v):
-            if robust:
-                out['cross']['mismatch'].append({'path': fp, 'call': i, 'why': 'structure: %s vs %s' % (repr(s)[:200], nr.get('sig', '')[:200]), 'values': vals})
-            else:
-                out['cross']['skipped'] += 1
-            return
-        for x, y in zip(v, nv):
-            try:
-                xv = x.eval(ev) if isinstance(x, (SReal, SBool)) else x
-            except Exception:
-                continue
-            if isinstance(xv, bool) or isinstance(y, bool):
-                bad = bool(xv) != bool(y)
-            else:
-                bad = abs(float(xv) - float(y)) > 1e-6 * max(1.0, abs(float(y)))
-            if bad:
-                if robust:
-                    out['cross']['mismatch'].append({'path': fp, 'call': i, 'why': 'value %r vs native %r' % (xv, y), 'values': vals})
-                else:
-                    out['cross']['skipped'] += 1
-                return
+        res2 = native.replay(job['contract'], job['cfg'], w2[0])
+        job['replays'] += 1
+        if res2 is None or res2.get('status') in ('server-error', 'contract-error', 'out-of-domain') or res2.get('failed'):
+            continue
+        if _compare_calls(ck, res2, ev2, w2[0], True, fp) is None:
+            out['cross']['retried'] = out['cross'].get('retried', 0) + 1
+            mm = None
+    if mm == 'skip':
+        out['cross']['skipped'] += 1
+        return
+    if mm is not None:
+        out['cross']['mismatch'].append(mm)
+        return
     out['cross']['validated'] += 1
